@@ -38,6 +38,12 @@ def gen_plan(r, index, tier):
             'chunks': [r.choice([1, 1, 2, 3, 5, 50, 400]) for _ in range(r.randrange(1, 5))],
             'open_polls': r.choice([1, 2, 3]),
             'poll_each_chunk': r.random() < 0.6}
+    if r.random() < 0.5:
+        # read faults while the surviving prefix arrives, and around the moment the stream is closed
+        conf['arms'] = [[r.randrange(6), r.choice(['would_block', 'short']), r.choice([1, 1, 2, 3])]
+                        for _ in range(r.choice([1, 2, 3]))]
+        if r.random() < 0.5:
+            conf['arm_at_close'] = [r.choice(['short', 'short', 'would_block']), r.choice([1, 1, 2])]
     return {'check': ID, 'workload': w, 'config': conf}
 
 
@@ -182,8 +188,20 @@ def _check_streaming(wl, prefix, k, conf, trace, ctr, sites):
     chunks = conf['chunks']
     d = 0
     i = 0
+
+    def arm(kind_, arg):
+        if kind_ == 'would_block':
+            for _ in range(arg):
+                st.arm('would_block', None)
+        else:
+            st.arm('short', arg)
+        trace.append(['arm', 0, kind_, arg])
+
     while d < k:
         c = chunks[i % len(chunks)]
+        for at, kind_, arg in conf.get('arms') or ():
+            if at == i:
+                arm(kind_, arg)
         i += 1
         st.deliver(c)
         d += c
@@ -191,9 +209,14 @@ def _check_streaming(wl, prefix, k, conf, trace, ctr, sites):
             poll_open('partial')
     for _ in range(conf['open_polls']):
         poll_open('all-prefix-delivered')
+    if conf.get('arm_at_close'):
+        arm(conf['arm_at_close'][0], conf['arm_at_close'][1])
     st.close_stream()
     trace.append(['close', 0])
-    for j in range(2):
+    # after the close every armed fault costs at most one more poll
+    extra = (conf['arm_at_close'][1] if conf.get('arm_at_close') else 0) + \
+        sum(a[2] for a in conf.get('arms') or ())
+    for j in range(2 + extra):
         kind, payload, starved = cons.poll()
         if kind == W.ERR and isinstance(payload, error.EndOfStreamError):
             break
@@ -210,6 +233,9 @@ def _check_streaming(wl, prefix, k, conf, trace, ctr, sites):
                           residual=k - (st.position() if hasattr(st, 'position') else 0))
     for chain, line in cons.sites:
         sites.add('%s@%s' % ('<'.join(chain[:6]), line))
+    for fk, fv in st.fault_fired.items():
+        if fv:
+            ctr['fault.%s' % fk] = ctr.get('fault.%s' % fk, 0) + fv
 
 
 def shrink_candidates(plan, detail=None):
@@ -229,6 +255,14 @@ def shrink_candidates(plan, detail=None):
             c['only_pres'] = pres
             yield c
     conf = plan['config']
+    if conf.get('arms'):
+        c = copy.deepcopy(plan)
+        del c['config']['arms']
+        yield c
+    if conf.get('arm_at_close'):
+        c = copy.deepcopy(plan)
+        del c['config']['arm_at_close']
+        yield c
     if conf.get('chunks') != [400]:
         c = copy.deepcopy(plan)
         c['config']['chunks'] = [400]
